@@ -11,18 +11,50 @@ A_REGIME = ["numpy 2.5.3 semantics as transcribed in spec/abs/NpVal.tla and PySe
             "small-scope exhaustive enumeration by TLC plus seeded random cases; larger inputs are sampled"]
 
 
-def c02():
-    t = Timer()
-    res = runner.Result("C02")
-    runner.model_stage(res, "C02", "ragged", "MC_C02", strict=False)
-    runner.trace_stage(res, "C02", "ragged", "drivers_ragged", "Trace_Ragged", 4000 if Q else 40000)
-    return runner.finish(res,
-        "TLC enumerates every shape x selector pair of MC_C02 (level-A GetItem = Python list semantics), checking the "
-        "model invariants CellsInside and IntRefusal; every case state is replayed into RaggedArray.__getitem__ under two "
-        "realisations (fresh array; pending view / tuple spelling) and compared; a seeded driver adds larger shapes, all "
-        "selector kinds and far-out bounds whose recorded outcomes TLC judges with the same operator.",
-        "case = (array content, row selector, column selector); distinct by content hash; non-trivial = array has a cell and the selector pair is not (Ellipsis, none)",
-        A_REGIME, t.s())
+
+def _ragged_check(prop, strict, n_quick, n_thorough, text, rule):
+    def run():
+        t = Timer()
+        res = runner.Result(prop)
+        runner.model_stage(res, prop, "ragged", "MC_" + prop, strict=strict)
+        runner.trace_stage(res, prop, "ragged", "drivers_ragged", "Trace_Ragged", n_quick if Q else n_thorough)
+        return runner.finish(res, text, rule, A_REGIME, t.s())
+    return run
 
 
-CHECKS = {"C02": c02}
+BIND = (" Every enumerated case state is executed against the real RaggedArray under two realisations of the operand (freshly built; "
+        "a still-pending selection of a larger array / alternative call spelling) and compared with the outcome level A demands; a seeded "
+        "driver adds all dtypes, larger shapes and extreme values whose recorded outcomes TLC judges with the same operator (Trace_Ragged).")
+
+CHECKS = {
+    "C01": _ragged_check("C01", True, 3000, 30000,
+        "TLC enumerates shape x dtype x palette x constructor x read-back of MC_C01 and checks GeometryLemma (rows tile the buffer, "
+        "flat<->(row,col) maps are inverse) and SizeMismatchRefused on the model." + BIND,
+        "case = (constructor with content, reader); non-trivial = every case (each pairs a distinct shape/content with a distinct read-back)"),
+    "C02": _ragged_check("C02", False, 4000, 40000,
+        "TLC enumerates every shape x selector pair of MC_C02 (level-A GetItem = Python list semantics), checking CellsInside and IntRefusal." + BIND,
+        "case = (array content, row selector, column selector); non-trivial = array has a cell and the selector pair is not (Ellipsis, none)"),
+    "C03": _ragged_check("C03", False, 4000, 40000,
+        "TLC enumerates shape x non-repeating index expression x value kind of MC_C03 (incl. every boolean ragged mask) and checks FrameLemma, "
+        "MismatchRefused and ScalarLemma on the model; the expectation is the WHOLE content after the assignment, so the frame condition is "
+        "part of every comparison." + BIND,
+        "case = (array, index, value); non-trivial = array has a cell and the index is not the whole array"),
+    "C04": _ragged_check("C04", True, 4000, 40000,
+        "TLC enumerates shape x operand kind x side x dtype pair x ufunc of MC_C04 (factored) with palette content (8/16-bit wrap, NaN/inf), "
+        "checking ShapeLemma, DifferentLengthsRefused and the promotion LatticeLemma; result dtype is compared (claimed); operands are "
+        "snapshotted before and after the call (frame)." + BIND,
+        "case = (ufunc, operands); non-trivial = the ragged operand has a cell"),
+    "C05": _ragged_check("C05", False, 4000, 40000,
+        "TLC enumerates shape x dtype x palette x reduction x (axis, keepdims) of MC_C05 and checks EmptyRowIdentity and NoAxisIsReductionOfRows; "
+        "max/min/mean/argmax/argmin are judged entry-wise for non-empty rows only." + BIND,
+        "case = (reduction, array, axis, keepdims); non-trivial = array has a row"),
+    "C07": _ragged_check("C07", False, 4000, 40000,
+        "TLC enumerates shape x dtype x palette x scan/reordering of MC_C07 (diff of order 0..3) and checks RowsKept, SortLemma, UniqueLemma, DiffLemma." + BIND,
+        "case = (function, array, n); non-trivial = array has a row"),
+    "C08": _ragged_check("C08", False, 4000, 40000,
+        "TLC enumerates operand tuples, every mask pattern and every in-row start/end vector of MC_C08 and checks ConcatRowsLemma, SubsetLemma, NonzeroLemma." + BIND,
+        "case = (function, operands); non-trivial = operands have a row"),
+    "C09": _ragged_check("C09", False, 3000, 30000,
+        "TLC enumerates shape (>= 1 non-empty row) x dtype x palette x column aggregate of MC_C09 and checks CountsLemma and SumLemma." + BIND,
+        "case = (aggregate, array, column); non-trivial = array has a cell"),
+}
